@@ -562,6 +562,111 @@ func gen(r *vlib.R, n int, tier string, emit func(string)) {
 						emitN(fmt.Sprintf("edns cachewire %s %s %s", vlib.B(r.Bool()), q, u))
 					}
 				}
+			case x == 5 && r.Chance(1, 2):
+				// the real failover middleware with two real fallback servers: the chain
+				// below answers SERVFAIL (mostly), the fallbacks answer SERVFAIL / data / nothing
+				q := genQ(r)
+				q.opcode, q.opt.ver = 0, 0
+				if r.Chance(5, 6) {
+					q.rd = true
+				}
+				small := func(rc int) aR {
+					u := aR{mode: 'e', rcode: rc, ra: true, ad: r.Bool()}
+					if rc == 0 {
+						a := aRR{kind: 'A', id: 1, p: r.Intn(40), owner: 'q'}
+						measure(&a, q.id)
+						u.an = []aRR{a}
+						if r.Bool() {
+							s2 := aRR{kind: 'S', id: 2, p: 64, owner: 'q'}
+							measure(&s2, q.id)
+							u.an = append(u.an, s2)
+						}
+					}
+					if r.Chance(1, 3) {
+						u.opt = aOpt{present: true, udp: 1232, do: true, opts: genUpstreamOptions(r)}
+						u.ex = []aRR{{kind: 'O'}}
+					}
+					return u
+				}
+				rc := dns.RcodeServerFailure
+				if r.Chance(1, 5) {
+					rc = vlib.Pick(r, []int{0, dns.RcodeNameError, dns.RcodeRefused})
+				}
+				f := func() aR {
+					// (a REFUSED from a fallback is the client library's to skip, not failover's to pass on)
+					return small(vlib.Pick(r, []int{dns.RcodeServerFailure, dns.RcodeServerFailure, 0, dns.RcodeNameError}))
+				}
+				emitN(fmt.Sprintf("edns failover %s %s %s %s %s %s", vlib.Pick(r, []string{"d", "w"}), protoPick(r), q, small(rc), f(), f()))
+			case x == 7 && r.Chance(1, 2):
+				// the cache's byte-route alias chase: a bare alias (CNAME only) and its
+				// target, admitted with independent AD bits, asked by any kind of client
+				q := genQ(r)
+				q.opcode, q.rd, q.mask, q.opt.ver = 0, true, 0, 0
+				q.qtype = int(dns.TypeTXT)
+				var keep []aOption
+				for _, o := range q.opt.opts {
+					if o.code != optECS {
+						keep = append(keep, o)
+					}
+				}
+				q.opt.opts = keep
+				if q.opt.present && q.opt.udp < 1232 && q.opt.udp != 0 {
+					q.opt.udp = 1232
+				}
+				tq := aQ{id: q.id%0x6000 + 1, rd: true, cd: q.cd, qtype: q.qtype}
+				if tq.id == q.id {
+					tq.id++
+				}
+				tq.qlen = len(wireName(qnameOf(tq.id))) + 4
+				rt := aR{mode: 'e', ra: true, ad: r.Bool()}
+				for i := 1 + r.Intn(2); i > 0; i-- {
+					a := aRR{kind: 'A', id: i, p: r.Intn(30), owner: 'q'}
+					measure(&a, tq.id)
+					rt.an = append(rt.an, a)
+				}
+				ra := aR{mode: 'e', ra: true, ad: r.Chance(2, 3), aa: r.Chance(1, 4), an: []aRR{{kind: 'C', id: 1, p: tq.id, owner: 'q'}}}
+				emitN(fmt.Sprintf("edns hitchase %s %s %s %s %s %s", vlib.Pick(r, []string{"d", "w", "w", "w"}), vlib.Pick(r, []string{"udp", "tcp", "tcp"}), q, ra, tq, rt))
+			case x == 6 && r.Chance(1, 4):
+				// an entry that carries an extended error, hit over UDP with the
+				// reply stepping across the client's limit: the OPT's EDE counts
+				q := genQ(r)
+				q.opcode, q.rd, q.mask, q.cd = 0, true, 0, false
+				q.qtype = int(dns.TypeA)
+				q.opt = aOpt{present: true, udp: vlib.Pick(r, []int{512, 700, 1232, 4096}), do: r.Bool()}
+				if r.Bool() {
+					q.opt.opts = []aOption{{optCookie, r.Bytes(8)}}
+				}
+				ede := append([]byte{0, byte(r.Intn(25))}, []byte(vlib.Pick(r, []string{"", "stale", "upstream said so", "a rather long explanation of what went wrong upstream"}))...)
+				st := r.U64()
+				for j := -34; j <= 6; j += 4 {
+					rr := vlib.NewR(st)
+					u := genR(rr, q, cfg, "udp", limitOf(q), j)
+					u.mode, u.tc, u.rcode, u.ra = 'e', false, 0, true
+					for _, sec := range []*[]aRR{&u.an, &u.ns, &u.ex} {
+						for i := range *sec {
+							if (*sec)[i].kind != 'O' && (*sec)[i].owner != 'q' {
+								(*sec)[i].owner = 'q'
+								measure(&(*sec)[i], q.id)
+							}
+						}
+					}
+					hasO := false
+					for _, x := range u.ex {
+						if x.kind == 'O' {
+							hasO = true
+						}
+					}
+					if !hasO {
+						u.ex = append(u.ex, aRR{kind: 'O'})
+					}
+					u.opt = aOpt{present: true, udp: 1232, opts: []aOption{{optEDE, ede}}}
+					if j%8 == 2 {
+						emitN(fmt.Sprintf("edns wirewrite %s udp %d %s %s", vlib.Pick(r, []string{"d", "w"}), packedBodyLen(q, u), q, u))
+					} else {
+						emitN(fmt.Sprintf("edns hit %s udp %s %s %s", vlib.Pick(r, []string{"d", "w"}), packedHitLens(q, u), q, u))
+					}
+				}
+				k -= 10
 			case x < 4 && r.Bool():
 				// the real cache handler serving a hit (byte route when the writer
 				// allows it, message route otherwise), behind the real edns
@@ -730,7 +835,7 @@ func gen(r *vlib.R, n int, tier string, emit func(string)) {
 		}
 		var pool []aQ
 		for k := 0; k < per; k++ {
-			entry := vlib.Pick(r, []string{"rawudp", "rawudp", "rawtcp", "inline", "msgdoh", "msgdoq", "http", "sockudp", "sockudp", "socktcp", "socktcp", "sockdoq"})
+			entry := vlib.Pick(r, []string{"rawudp", "rawudp", "rawtcp", "inline", "msgdoh", "msgdoq", "http", "httpget", "sockudp", "sockudp", "socktcp", "socktcp", "sockdoq"})
 			if r.Chance(1, 5) {
 				var from *aQ
 				if len(pool) > 0 && r.Bool() {
@@ -741,7 +846,7 @@ func gen(r *vlib.R, n int, tier string, emit func(string)) {
 			}
 			if r.Chance(1, 12) {
 				// the same malformed stream at the entries that have no header gate of their own
-				emit(rawOp(vlib.Pick(r, []string{"http", "msgdoh", "msgdoq", "rawudp", "rawudp", "rawtcp", "rawtcp", "inline"}), genMalformed(r, nil)))
+				emit(rawOp(vlib.Pick(r, []string{"http", "httpget", "msgdoh", "msgdoq", "rawudp", "rawudp", "rawtcp", "rawtcp", "inline"}), genMalformed(r, nil)))
 				continue
 			}
 			if r.Chance(1, 14) {
@@ -815,7 +920,7 @@ func gen(r *vlib.R, n int, tier string, emit func(string)) {
 					default:
 						hq.opt = aOpt{present: true, udp: 1232}
 					}
-					emit(fmt.Sprintf("srv q %s %s %s", vlib.Pick(r, []string{"rawudp", "rawtcp", "inline", "sockudp", "socktcp", "msgdoh", "sockdoq"}), hq, au))
+					emit(fmt.Sprintf("srv q %s %s %s", vlib.Pick(r, []string{"rawudp", "rawtcp", "inline", "sockudp", "socktcp", "msgdoh", "httpget", "sockdoq"}), hq, au))
 				}
 				k += 5
 				continue
